@@ -1,5 +1,5 @@
 (* C13/Witness.v — non-vacuity examples (vm_compute). *)
-From Verif Require Import Common.Base C13.Model C13.Spec C13.Proofs1 C13.Proofs2 C13.Proofs3 C13.Proofs4 C13.Proofs5 C13.Proofs6 C13.Proofs7 C13.Proofs8 C13.Proofs9 C13.Proofs10 C13.Proofs11 C13.ProofsC C13.Checkers C13.Instances.
+From Verif Require Import Common.Base C13.Model C13.Spec C13.Proofs1 C13.Proofs2 C13.Proofs3 C13.Proofs4 C13.Proofs5 C13.Proofs6 C13.Proofs7 C13.Proofs8 C13.Proofs9 C13.Proofs10 C13.Proofs11 C13.ProofsC C13.ProofsL C13.Checkers C13.Harness C13.Instances.
 From Verif Require Import Generated.C13CfgSchema.
 From Coq Require Import String.
 Open Scope string_scope.
@@ -184,10 +184,10 @@ Example kinds_1 : decode_leaf KInt (WStr "7") = DErr /\ decode_leaf KBool (WInt 
 Proof. repeat split. Qed.
 Example kinds_2 : decode_leaf KStrSlice (WStr "a,b,,c") = DList ["a"; "b"; ""; "c"] /\ decode_leaf KStrSlice (WStr "") = DList [].
 Proof. vm_compute. split; reflexivity. Qed.
-Example kinds_3 : decode_leaf KInt (WFloat 11 true) = DNum 11 false.   (* 11.5 written, 11 stored *)
-Proof. reflexivity. Qed.
-Example kinds_hyp : truncating KFloat (WFloat 11 true) = false /\ family_mismatch KInt (WStr "7") = true.
+Example kinds_3 : decode_leaf KInt (WFloat 11 true) = DErr /\ decode_leaf KInt (WFloat 11 false) = DNum 11 false.  (* 11.5 rejected, 11.0 accepted *)
 Proof. split; reflexivity. Qed.
+Example kinds_hyp : family_mismatch KInt (WStr "7") = true.
+Proof. reflexivity. Qed.
 
 Definition od : otv := ORec false [("endpoint", OSc true true ""); ("write_buffer_size", OSc true false "524288");
                                    ("tls", ORec true [("insecure", OSc false true "false")])].
@@ -236,3 +236,14 @@ Example checker_w3 : wf_b g0 c_ok = true /\ wf_b g0 c_dangling = false.
 Proof. vm_compute. split; reflexivity. Qed.
 Example checker_w4 : no_secret_b (ev_plains e1) (encode e1) = true /\ no_secret_b (ev_plains e1) (CMap [("headers", CMap [("Authorization", CScalar "token-1")])]) = false.
 Proof. vm_compute. split; reflexivity. Qed.
+
+(* ---- link theorem: non-vacuity ---------------------------------------------------------------------- *)
+Definition link_case : vcase := CFaith "exporters/otlp" d1 (CMap [("sending_queue", CMap [("queue_size", CScalar "7")])]) (VRec []).
+Example link_case_wf : case_wf link_case.
+Proof. repeat constructor; cbn; intuition discriminate. Qed.
+Example link_case_model_ok : prop_ok (observe_model link_case) = true.
+Proof. vm_compute. reflexivity. Qed.
+Example link_case_bad_observation : prop_ok link_case = false.   (* the checker is not trivially true *)
+Proof. vm_compute. reflexivity. Qed.
+Example cv_both_order : cv_both (CMap [("a", CScalar "1"); ("b", CNull)]) (CMap [("b", CNull); ("a", CScalar "1")]) = true.
+Proof. vm_compute. reflexivity. Qed.
